@@ -50,3 +50,58 @@ package syntax
 //@   probe modsDis: dm != nil
 //@   probe otherDis: do != nil
 //@   probe disEq: fn(syntax.BindStm.Equals, dm, do)
+
+//@ func syntax.BindStms.Equals property C15
+//@   pure
+//@   opt deterministic on
+//@   let empty = bindings == nil || len(bindings.List) == 0
+//@   ensures @empty empty ==> result == (other == nil || len(other.List) == 0)
+//@   ensures @shape result && !empty ==> other != nil && other.Table != nil && len(other.List) == len(bindings.List)
+//@   ensures @sound result && !empty ==> forall j :: 0 <= j && j < len(bindings.List) && bindings.List[j].Id != "*" ==> other.Table[bindings.List[j].Id] != nil && fn(syntax.BindStm.Equals, bindings.List[j], other.Table[bindings.List[j].Id])
+//@   ensures @complete !empty && other != nil && other.Table != nil && len(other.List) == len(bindings.List) && (forall j :: 0 <= j && j < len(bindings.List) && bindings.List[j].Id != "*" ==> other.Table[bindings.List[j].Id] != nil && fn(syntax.BindStm.Equals, bindings.List[j], other.Table[bindings.List[j].Id])) ==> result
+//@   loop 1 invariant 0 <= iter && iter <= len(bindings.List)
+//@   loop 1 invariant forall j :: 0 <= j && j < iter && bindings.List[j].Id != "*" ==> other.Table[bindings.List[j].Id] != nil && fn(syntax.BindStm.Equals, bindings.List[j], other.Table[bindings.List[j].Id])
+
+//@ func syntax.InParams.Equals property C15
+//@   pure
+//@   opt deterministic on
+//@   let empty = params == nil || len(params.List) == 0
+//@   ensures @empty empty ==> result == (other == nil || len(other.List) == 0)
+//@   ensures @shape result && !empty ==> other != nil && other.Table != nil && len(other.Table) == len(params.List)
+//@   ensures @sound result && !empty ==> forall j :: 0 <= j && j < len(params.List) ==> other.Table[params.List[j].Id] != nil && params.List[j].Tname.ArrayDim == other.Table[params.List[j].Id].Tname.ArrayDim && params.List[j].Isfile == other.Table[params.List[j].Id].Isfile && (params.List[j].Isfile != KindIsFile ==> params.List[j].Tname == other.Table[params.List[j].Id].Tname)
+//@   ensures @complete !empty && other != nil && other.Table != nil && len(other.Table) == len(params.List) && (forall j :: 0 <= j && j < len(params.List) ==> other.Table[params.List[j].Id] != nil && params.List[j].Tname.ArrayDim == other.Table[params.List[j].Id].Tname.ArrayDim && params.List[j].Isfile == other.Table[params.List[j].Id].Isfile && (params.List[j].Isfile != KindIsFile ==> params.List[j].Tname == other.Table[params.List[j].Id].Tname)) ==> result
+//@   loop 1 invariant 0 <= iter && iter <= len(params.List)
+//@   loop 1 invariant forall j :: 0 <= j && j < iter ==> other.Table[params.List[j].Id] != nil && params.List[j].Tname.ArrayDim == other.Table[params.List[j].Id].Tname.ArrayDim && params.List[j].Isfile == other.Table[params.List[j].Id].Isfile && (params.List[j].Isfile != KindIsFile ==> params.List[j].Tname == other.Table[params.List[j].Id].Tname)
+
+//@ func syntax.OutParams.Equals property C15
+//@   pure
+//@   opt deterministic on
+//@   let empty = params == nil || len(params.List) == 0
+//@   ensures @empty empty ==> result == (other == nil || len(other.List) == 0)
+//@   ensures @shape result && !empty ==> other != nil && other.Table != nil && len(other.Table) == len(params.List)
+//@   ensures @sound result && !empty ==> forall j :: 0 <= j && j < len(params.List) ==> other.Table[params.List[j].Id] != nil && params.List[j].Tname.ArrayDim == other.Table[params.List[j].Id].Tname.ArrayDim && params.List[j].isFile == other.Table[params.List[j].Id].isFile && (params.List[j].isFile != KindIsFile ==> params.List[j].Tname == other.Table[params.List[j].Id].Tname) && ((params.List[j].isFile == KindIsFile || params.List[j].isFile == KindIsDirectory) && checkOutNames ==> params.List[j].OutName == other.Table[params.List[j].Id].OutName)
+//@   ensures @complete !empty && other != nil && other.Table != nil && len(other.Table) == len(params.List) && (forall j :: 0 <= j && j < len(params.List) ==> other.Table[params.List[j].Id] != nil && params.List[j].Tname.ArrayDim == other.Table[params.List[j].Id].Tname.ArrayDim && params.List[j].isFile == other.Table[params.List[j].Id].isFile && (params.List[j].isFile != KindIsFile ==> params.List[j].Tname == other.Table[params.List[j].Id].Tname) && ((params.List[j].isFile == KindIsFile || params.List[j].isFile == KindIsDirectory) && checkOutNames ==> params.List[j].OutName == other.Table[params.List[j].Id].OutName)) ==> result
+//@   loop 1 invariant 0 <= iter && iter <= len(params.List)
+//@   loop 1 invariant forall j :: 0 <= j && j < iter ==> other.Table[params.List[j].Id] != nil && params.List[j].Tname.ArrayDim == other.Table[params.List[j].Id].Tname.ArrayDim && params.List[j].isFile == other.Table[params.List[j].Id].isFile && (params.List[j].isFile != KindIsFile ==> params.List[j].Tname == other.Table[params.List[j].Id].Tname) && ((params.List[j].isFile == KindIsFile || params.List[j].isFile == KindIsDirectory) && checkOutNames ==> params.List[j].OutName == other.Table[params.List[j].Id].OutName)
+
+//@ func syntax.Stage.EquivalentTo property C15
+//@   pure
+//@   opt deterministic on
+//@   ensures @nil stage == nil ==> result == isnil(other)
+//@   ensures @kind result && stage != nil ==> istype(other, ptr_syntax.Stage)
+//@   ensures @split result && stage != nil ==> stage.Split == as(other, ptr_syntax.Stage).Split
+//@   ensures @ins result && stage != nil ==> fn(syntax.InParams.Equals, stage.InParams, as(other, ptr_syntax.Stage).InParams)
+//@   ensures @outs result && stage != nil ==> fn(syntax.OutParams.Equals, stage.OutParams, as(other, ptr_syntax.Stage).OutParams, false)
+//@   ensures @complete stage != nil && istype(other, ptr_syntax.Stage) && stage.Split == as(other, ptr_syntax.Stage).Split && fn(syntax.InParams.Equals, stage.InParams, as(other, ptr_syntax.Stage).InParams) && fn(syntax.OutParams.Equals, stage.OutParams, as(other, ptr_syntax.Stage).OutParams, false) ==> result
+
+//@ func syntax.CallStm.EquivalentTo property C15
+//@   pure
+//@   opt deterministic on
+//@   ensures @nil call == nil ==> result == (other == nil)
+//@   ensures @othernil call != nil && other == nil ==> !result
+//@   ensures @id result && call != nil ==> call.Id == other.Id
+//@   ensures @bindings result && call != nil ==> fn(syntax.BindStms.Equals, call.Bindings, other.Bindings)
+//@   ensures @mods result && call != nil ==> fn(syntax.Modifiers.EquivalentTo, call.Modifiers, other.Modifiers)
+//@   ensures @calleenil result && call != nil && isnil(myCallables.Table[call.DecId]) ==> isnil(otherCallables.Table[other.DecId])
+//@   ensures @callee result && call != nil && !isnil(myCallables.Table[call.DecId]) ==> !isnil(otherCallables.Table[other.DecId]) && fn(syntax.Callable.EquivalentTo, myCallables.Table[call.DecId], otherCallables.Table[other.DecId], myCallables, otherCallables)
+//@   ensures @complete call != nil && other != nil && call.Id == other.Id && fn(syntax.BindStms.Equals, call.Bindings, other.Bindings) && fn(syntax.Modifiers.EquivalentTo, call.Modifiers, other.Modifiers) && !isnil(myCallables.Table[call.DecId]) && !isnil(otherCallables.Table[other.DecId]) && fn(syntax.Callable.EquivalentTo, myCallables.Table[call.DecId], otherCallables.Table[other.DecId], myCallables, otherCallables) ==> result
